@@ -104,6 +104,20 @@ def install():
         return real_create(dependency)
 
     xtok.TokenFile.create = staticmethod(create)
+    real_acquire = xtok.CounterToken.acquire
+
+    def acquire(self, dependency):
+        from experimaestro.locking import LockError
+
+        try:
+            return real_acquire(self, dependency)
+        except LockError:
+            # the watcher thread of the real system can run at this very instant
+            if ENG is not None:
+                ENG.on_refused_acquire(self)
+            raise
+
+    xtok.CounterToken.acquire = acquire
     for cls in sim.TASK_CLASSES:
         t = cls.__getxpmtype__()
         t.__initialize__()
@@ -259,6 +273,7 @@ class Engine:
         self.job_by_obj = {}
         self.resubmitted = False
         self.stale_fs = []
+        self.release_racers = []  # (f, ti): foreign holdings released at our next refused acquisition
         self.racers = []  # (f, ti, w): foreign acquisitions waiting for a window inside ours
         self.output_extra = {}  # upstream index -> upstream indices attached to its output by a pre-task
 
@@ -398,6 +413,36 @@ class Engine:
                 seen = o.__dict__.setdefault("observed", [])
                 if not seen or seen[-1][1] != o.state:
                     seen.append((self.step_no, o.state))
+
+    def on_refused_acquire(self, token):
+        """Called (loop thread) when our acquisition has just been refused: a foreign holder
+        registered with `frelrace` releases now and the watcher callback runs at once, before
+        the scheduler re-checks the dependency"""
+        from watchdog.events import FileDeletedEvent
+
+        for ti, t in enumerate(self.tokens):
+            if t is token:
+                break
+        else:
+            return
+        for key in [k for k in self.release_racers if k[1] == ti and k in self.foreign]:
+            self.release_racers.remove(key)
+            info = self.foreign[key]
+            fjob = info["job"]
+            if fjob["alive"]:
+                fjob["child"].kill()
+                fjob["child"].wait()
+                fjob["alive"] = False
+                try:
+                    (fjob["dir"] / "job.pid").unlink()
+                except FileNotFoundError:
+                    pass
+            path = info["path"]
+            if path.exists():
+                _foreign_release(self, key)
+                self.known_files.get(ti, {}).pop(path.name, None)
+                _deliver_now(self, lambda: token.on_deleted(FileDeletedEvent(str(path))), f"deleted:{path.name} (at a refused acquisition)")
+                self.notes.add("release-at-refused-acquisition")
 
     def on_token_file_create(self, dependency):
         """Called (loop thread) right before our process writes a token file"""
@@ -659,6 +704,8 @@ def _run_one(case, scratch, run_index, done_before, prev=None, xp_name=None, end
                 _foreign_acquire(eng, *op[1:])
             elif op[0] == "fopen":
                 _foreign_open(eng, *op[1:])
+            elif op[0] == "frelrace":
+                eng.release_racers.append((op[1], op[2]))
             elif op[0] == "frace":
                 if eng.case["tokens"][op[2]]["kind"] == "file":
                     eng.racers.append((op[1], op[2], op[3]))
@@ -865,6 +912,12 @@ def _foreign_acquire(eng, f, ti, w, twostep, scheduler_dies):
         return
 
     def job_ends():
+        if not fjob["alive"]:
+            # already ended (released at a refused acquisition): the other holdings follow
+            for key in list(fjob["holdings"]):
+                if eng.foreign[key]["path"].exists() and not fjob["scheduler_dies"]:
+                    eng.add_event("foreign", f"release{key[0]}-{key[1]}", lambda k=key: _foreign_release(eng, k))
+            return
         child.kill()
         child.wait()
         fjob["alive"] = False
